@@ -730,7 +730,15 @@ class InspectFunction(object):
         vdeps = ExternalVarsVisitor(mod, gctx, local_vars)
         for n in body:
             vdeps.visit(n)
-        ext_deps = sorted(vdeps.vars.values(), key=lambda ed: ed.local_path)
+        # The default values of the parameters are expressions of the enclosing scope: a name in them
+        # refers to the module, whatever the parameters and the local variables are called.
+        vdeps_defaults = ExternalVarsVisitor(mod, gctx, set())
+        for dn in list(node.args.defaults) + list(node.args.kw_defaults):
+            if dn is not None:
+                vdeps_defaults.visit(dn)
+        all_vdeps = dict(vdeps_defaults.vars)
+        all_vdeps.update(vdeps.vars)
+        ext_deps = sorted(all_vdeps.values(), key=lambda ed: ed.local_path)
         if debug:
             _logger.debug("inspect_fun: ext_deps: %s", ext_deps)
 
